@@ -177,6 +177,8 @@ func runC18(c *Ctx) {
 		}
 	}
 
+	ruleLMTPLoopComplete(c)
+
 	R.Rule("R-lmtp-error-not-lost", "E4", "a per-recipient SMTPError flows to the callback or, when no callback was supplied, to Close's return value; any other read error is returned", 2)
 	if f := c.A.Func("(*dataCloser).Close"); f != nil {
 		viaReturn, nonSMTP := false, false
@@ -196,5 +198,44 @@ func runC18(c *Ctx) {
 		})
 		R.Ob("(*dataCloser).Close/LMTP refusal without callback is returned", c.P.Pos(f.Pos()), viaReturn, "in LMTP mode a refused recipient's SMTPError can only reach the status callback; with a nil callback (Client.Data) it is dropped and Close returns nil although the message was not delivered")
 		R.Ob("(*dataCloser).Close/other read errors are returned", c.P.Pos(f.Pos()), nonSMTP, "a failed read of a reply is not returned")
+	}
+}
+
+// ruleLMTPLoopComplete: a per-recipient SMTP refusal must not end the reply
+// loop: Close has to read one reply per accepted recipient, otherwise the
+// unread replies are taken for the answers to the next commands.
+func ruleLMTPLoopComplete(c *Ctx) {
+	R := c.R
+	R.Rule("R-lmtp-loop-complete", "E3 edge-feasibility", "inside the LMTP reply loop only a non-SMTP (I/O) error may return; an SMTPError reply continues with the next recipient", 1)
+	f := c.A.Func("(*dataCloser).Close")
+	if f == nil {
+		return
+	}
+	n := 0
+	for _, li := range findLoops(f) {
+		reads := false
+		for b := range li.blocks {
+			for _, in := range b.Instrs {
+				if isStaticCall(in, "(*Client).readResponse") {
+					reads = true
+				}
+			}
+		}
+		if !reads {
+			continue
+		}
+		// returns reachable from the loop body without passing the header's exit edge
+		region := reachableFrom(li.body, func(from, to *ssa.BasicBlock) bool { return to == li.header })
+		for b := range region {
+			for _, in := range b.Instrs {
+				if _, ok := in.(*ssa.Return); ok {
+					n++
+					c.obUnreach("return from inside the reply loop", in, `assert[*SMTPError]((*Client).readResponse(dataCloser.c,250)#2)#1 == true`)
+				}
+			}
+		}
+	}
+	if n == 0 {
+		R.Ob("(*dataCloser).Close/loop has an I/O-error return", c.P.Pos(f.Pos()), true, "")
 	}
 }
